@@ -464,6 +464,14 @@ def run(ctx):
         if sigs.has_kind(p, VK):
             cand.append(oracle.FOREIGN)
         kwsets = [()] + [(k,) for k in cand] + list(itertools.combinations(cand, 2))
+        va_name = sigs.star_name(p, VA)
+        if va_name and sigs.has_kind(p, VK):
+            # a keyword spelled like the *args parameter is an ordinary keyword that **kwargs absorbs; alone, and
+            # before / after a keyword that binds a positional-or-keyword parameter (which is what removes *args from the signature)
+            # (only together with such a binding keyword: while *args itself stays in the signature the absorbed keyword
+            # cannot be shown under its name -- see DESIGN section 5.2, last entry -- and no registered check drives that)
+            named_kw = [x[0] for x in p if x[1] == PK]
+            kwsets += [(va_name, k) for k in named_kw] + [(k, va_name) for k in named_kw]
         for npos in range(0, cap + 2):
             for kws in kwsets:
                 check_partial(ctx, p, npos, kws)
